@@ -1,0 +1,8 @@
+//go:build verif
+// +build verif
+
+package stackinit
+
+// With the "verif" build tag the package does not create a TAP device at
+// import time; the harness provides stack.Pstack itself.
+const verifEnabled = true
